@@ -84,6 +84,11 @@ CLAIMED = {
         text='C13_no_panic, C13_setup_recovers_same_connection, C13_verify_recovers_same_connection, C13_updates_never_panic. Real server: malformed TLV8, hostile JSON (1e400, 12000-deep nesting, wrong types), short / undecryptable payloads, unknown steps / methods, composite values at five protocol states; every request must be answered (no dropped connection) and a correct handshake must succeed afterwards on the same and on a new connection.',
         design='5/C13',
         note='Symbolic (Dolev-Yao style) cryptography in the world model: forging a proof / signature / sealed message is impossible by construction of the message alphabet; INT-CTXT, EUF-CMA, SRP-6a soundness, CDH, HKDF-as-RO are assumed, not proved. net/http parsing modelled as 400-and-close. Model tied to the code by the translator (endpoint table, Authenticate shape, labels, nonces, tags) and by running the real ipTransport over TCP against an independent reference controller on the same scenarios as the extracted model. No axioms.'),
+    "C20": dict(
+        technique="Coq proofs over arbitrary histories of restarts / pairings / unpairings (identity invariant, configuration number = count of structure changes, discoverable <-> no controller entity), structural induction on JSON trees (value members never reach the hash input), setup-code acceptance characterised against the HAP trivial-code list regenerated from the Go source, X-HM payload round trip for all codes < 10^8, categories, flags and ids; differential correspondence on real NewIPTransport restart histories with live pairing through the reference controller",
+        text="C20_identity_stable / _restart_keeps_pairings (every history), C20_version_counts_structure_changes (every history; pairing never changes c#), C20_values_do_not_reach_the_hash (all JSON trees differing only in value members at any depth), C20_discoverable_iff_unpaired (every history), C20_pin_accepted_iff (all byte strings; trivial list from password.go), C20_setup_uri_roundtrip (all accepted codes, all categories, flag lists, setup ids; independent decoder). The model runs against hc on restart histories on one storage directory (structure / value / pairing changes, live pair-setup / add / remove, version / configHash files deleted), on setup codes and on util.XHMURI; Config.same_hash_input runs on the real JSON trees against equality of ContentHash().",
+        design="5/C20",
+        note="The structure hash is opaque in the history model (MD5 collision freedom outside the model); histories keep the uuid and the accessory's own entity file. No axioms."),
     "C14": dict(
         technique="Coq proofs: instance ids are exactly 1..n in construction order for every accessory shape, container ids unique and non-zero for every composition (invariant of AddAccessory); JSON mandatory members and catalog format / permission facts recompiled from the Go source; differential correspondence on random compositions of real constructors",
         text="C14_instance_ids_sequential / _unique_nonzero (all shapes), C14_accessory_ids_unique_nonzero (all compositions with explicit and automatic ids), C14_json_mandatory_members (struct tags regenerated by the translator), C14_every_ctor_sets_format_and_perms (finite, by computation over the regenerated catalog). Compositions of up to 40 (thorough 60) accessories from every service constructor with hidden / primary / linked services are built twice; ids are read from the objects and from the generic JSON, which is checked for HAP well-formedness.",
